@@ -310,7 +310,8 @@ def env(n=N, gran="G1"):
             keep.setdefault(c.co_filename, set()).update(ln for _, _, ln in c.co_lines() if ln)
     watch = sched.LineWatch(codes if gran != "G0" else [], keep=keep)
     watch.start()
-    _env.update(key=key, S=S, M=M, watch=watch, watch_names=names, nlocks=nlocks)
+    _env.update(key=key, S=S, M=M, watch=watch, watch_names=names, nlocks=nlocks,
+                kwds_full=dict(S.kwds), kwds_notags=dict(S.kwds, tags=type(S.kwds["tags"])()))
     return _env
 
 
@@ -328,6 +329,9 @@ def programs(tier):
         "W|W|R": [[("w", 0, ones)], [("w", 0, twos)], [("r", 0, N)]],
         # both sessions arrive at a simulator whose CIP objects do not exist yet: one-time creation under setup.lock
         "cold": [[("w", 0, ones)], [("r", 0, N)]],
+        # ... and a simulator WITHOUT configured tags (setup() has nothing to check per request), whose sessions ask for an attribute
+        # of the Identity object through the Connection Manager: every object must exist once any request is routed
+        "cold0": [[("g",)], [("g",)]],
     }
     if tier != "quick":
         P["B3|B3"] = [[("b", [("w", 0, ones), ("r", 0, N), ("w", 1, (5,))])], [("b", [("r", 0, N), ("w", 0, twos), ("r", 1, 2)])]]
@@ -340,7 +344,12 @@ def encode(req):
         return W.write_tag(W.tag_path("a", req[1] if req[1] else None), W.INT, list(req[2]))
     if req[0] == "r":
         return W.read_tag(W.tag_path("a", req[1] if req[1] else None), req[2])
+    if req[0] == "g":
+        return W.get_attribute_single(W.cia_path(1, 1, 7))        # Identity product name
     return W.multiple([encode(m) for m in req[1]])
+
+
+IDENTITY_NAME = b"\x141756-L61/B LOGIX5561"        # SSTRING: the simulator's default Identity product name
 
 
 def flatten(prog):
@@ -372,6 +381,11 @@ def decode_results(reqs, replies):
             if d["service"] != 0xCD:
                 raise W.WireError("write answered with service 0x%02x" % d["service"])
             out.append(("w", d["status"]))
+        elif r[0] == "g":
+            d = W.dec_reply(rp)
+            if d["service"] != 0x8E:
+                raise W.WireError("Get Attribute Single answered with service 0x%02x" % d["service"])
+            out.append(("g", d["status"], bytes(d["payload"])))
         else:
             d = W.dec_read_reply(rp)
             if d["service"] != 0xCC:
@@ -400,6 +414,10 @@ def linearizable(ops, results, final):
                     continue
                 s2 = list(store)
                 s2[op[1]:op[1] + len(op[2])] = list(op[2])
+            elif op[0] == "g":
+                if res[:2] != ("g", 0) or res[2] != IDENTITY_NAME:      # a constant attribute: the same answer whenever it is read
+                    continue
+                s2 = store
             else:
                 if res != ("r", 0, tuple(store[op[1]:op[1] + op[2]])):
                     continue
@@ -427,7 +445,8 @@ class Runner:
 
     def reset(self):
         S = self.S
-        if self.pname == "cold":
+        S.kwds = self.e["kwds_notags"] if self.pname == "cold0" else self.e["kwds_full"]
+        if self.pname in ("cold", "cold0"):
             M = self.e["M"]
             M.device.lookup_reset()
             M.logix.setup_reset()
@@ -461,10 +480,12 @@ class Runner:
                         raise AssertionError("reply to another request: context %r session %x status %x (expected %r %x 0)"
                                              % (f["context"], f["session"], f["status"], ctx, sess))
                     replies[t].append(W.dec_send_data(f)["cip"])
+                    self.order.append(t)
         return fn
 
     def run_one(self, prefix):
         self.reset()
+        self.order = []          # threads in the order their (frame seam) requests were answered
         nt = len(self.prog)
         replies = [[] for _ in range(nt)]
         sc = [None]
@@ -498,6 +519,9 @@ class Runner:
                 bad = ("not-linearizable", "no sequential order of %r explains results %r and final store %r" % (ops, results, final))
             else:
                 key = (tuple(map(tuple, results)), final)
+                if self.pname == "cold0":
+                    # reads of a constant: the only admissible difference between executions is who was answered first
+                    key += (tuple(self.order),)
                 self.outcomes[key] = self.outcomes.get(key, 0) + 1
         if bad is not None:
             self.violations.append((bad[0], case, "%s: %s; schedule %s" % (self.pname, bad[1], trace(x))))
@@ -561,7 +585,7 @@ def plan(tier):
     if tier == "quick":
         return [("W|R", "cm", "G1", 2), ("B|B", "cm", "G0", 2), ("B|B", "cm", "G1", 1), ("WR|WR", "cm", "G1", 1), ("B|R", "cm", "G1", 1),
                 ("private", "cm", "G1", 1), ("W|W|R", "cm", "G0", 1), ("W|R", "frame", "G1", 1), ("B|B", "frame", "G0", 1),
-                ("cold", "frame", "G1", 1)]
+                ("cold", "frame", "G1", 1), ("cold0", "frame", "G1", 1)]
     # executions grow like points^bound / bound!: line granularity (G1, 300-900 points per program) gets bound 2 only for the
     # single-request programs; lock granularity (G0, 120-500 points) gets the higher bound
     return [("W|R", "cm", "G1", 2), ("W|R", "cm", "G0", 3), ("B|R", "cm", "G1", 2),
@@ -569,7 +593,7 @@ def plan(tier):
             ("B3|B3", "cm", "G1", 1), ("B3|B3", "cm", "G0", 1), ("WW|RR", "cm", "G1", 1), ("WW|RR", "cm", "G0", 2),
             ("private", "cm", "G1", 1), ("private", "cm", "G0", 2), ("W|W|R", "cm", "G0", 2), ("W|W|R", "cm", "G1", 1),
             ("W|R", "frame", "G1", 1), ("W|R", "frame", "G0", 2), ("B|B", "frame", "G0", 1), ("WR|WR", "frame", "G0", 1),
-            ("cold", "frame", "G1", 1), ("cold", "frame", "G0", 2)]
+            ("cold", "frame", "G1", 1), ("cold", "frame", "G0", 2), ("cold0", "frame", "G1", 1), ("cold0", "frame", "G0", 2)]
 
 
 for _tier in ("quick", "thorough"):
